@@ -131,7 +131,9 @@ resources = [
     resource("fam.single", [("single", None)], ref("Nested"), [m("get", False), m("update", False), m("partial_update", False), m("delete", False),
         action("reset", [field("hard", prim("bool"))], ret=prim("int32"))]),
     resource("fam.acts", [("acts", None)], None, [action("sum", [field("a", prim("int64")), field("b", prim("int64"))], ret=prim("int64")),
-        action("noop", []), action("mk", [field("names", arr(prim("string")))], ret=arr(ref("Inner")))]),
+        action("noop", []), action("mk", [field("names", arr(prim("string")))], ret=arr(ref("Inner"))),
+        # a parameter with a default value (the params struct then needs the default-population code of a record)
+        action("bump", [field("by", prim("int32"), default="5"), field("label", prim("string"), optional=True)], ret=prim("int32"))]),
     resource("fam.prims.subs", [("prims", ("id", prim("int64"))), ("subs", ("sub", prim("string")))], ref("Inner"),
         [m("get", True), m("create", False), m("update", True), m("delete", True), m("get_all", False, paging=True), m("batch_get", False),
          finder("byA", [field("a", prim("string"))], schema=ref("Inner")), action("poke", [field("x", prim("string"))], ret=prim("string"), on_entity=True)]),
@@ -149,6 +151,10 @@ resources = [
         ro=["id", "inner/b", "items/*/b", "audit", "deep/audit/b", "deep/tags/*/b"], co=["created", "attrs/*/a", "deep/attrs/*/b"]),
     resource("fam.docs", [("docs", ("id", prim("int64")))], ref("Doc", "fam.docs"),
         [m("get", True), m("create", False), m("update", True), m("partial_update", True), m("batch_partial_update", False), m("batch_get", False)]),
+    # path keys whose names are not usable as Go identifiers as they stand: a keyword, and the name of a package
+    # every generated resource file imports
+    resource("fam.kw", [("kw", ("type", prim("int64")))], ref("Inner"), [m("get", True), m("update", True), m("delete", True), m("batch_get", False)]),
+    resource("fam.kw.sub", [("kw", ("type", prim("int64"))), ("sub", ("restli", prim("string")))], ref("Inner"), [m("get", True), m("create", False), m("get_all", False)]),
     # one kind of annotation only: the generator picks the exclusion set per method from which lists are non-empty
     resource("fam.coonly", [("coOnly", ("id", prim("int64")))], ref("CoOnly"),
         [m("get", True), m("create", False), m("batch_create", False), m("update", True), m("batch_update", False), m("partial_update", True), m("batch_partial_update", False)],
@@ -227,6 +233,12 @@ for t in types:
     if "record" in t and any("defaultValue" in f for f in t["record"]["fields"]):
         n = t["record"]["name"]
         lines.append('\treflect.TypeOf(fam.%s{}): func() interface{} { return fam.New%sWithDefaultValues() },' % (n, n))
+# the params struct of an action is decoded like a record: a parameter left unset comes back with its default
+for i, r in enumerate(resources):
+    for me in r["methods"]:
+        if me["methodType"] == "ACTION" and any("defaultValue" in f for f in me["params"]):
+            n = me["name"][0].upper() + me["name"][1:] + "ActionParams"
+            lines.append('\treflect.TypeOf(r%d.%s{}): func() interface{} { return r%d.New%sWithDefaultValues() },' % (i, n, i, n))
 lines.append('\treflect.TypeOf(common.CollectionMetadata{}): func() interface{} { return common.NewCollectionMetadataWithDefaultValues() },')
 lines += ["}", ""]
 with open(os.path.join(HERE, "family", "glue.go.txt"), "w") as f:
